@@ -40,6 +40,7 @@ type World struct {
 	Property string // C01 ...
 	Name     string // unique; a property may have several worlds
 	Weight   int    // share of the run budget among the property's worlds
+	Mode     string // "acct": run another property's world but judge only the acct- rules (C13)
 	// Gen draws a case from the tape. The result must be JSON-marshalable.
 	Gen func(t *tape.Tape, tier string) any
 	// Run executes the case inside the bubble and reports through env.
@@ -106,6 +107,9 @@ type Env struct {
 	Violations []Violation
 	Probes     map[string]int // "rare branch reached" counters
 	Faults     map[string]int // injected faults that actually fired
+	Mode       string         // "" or "acct": in acct mode only rules prefixed acct- are recorded (C13 rides on other worlds)
+	AcctResp   map[string]int // acct mode: "METHOD code" -> complete responses parsed by scripted clients
+	AcctInexact bool          // acct mode: some client gave up mid-exchange, so only inequalities hold
 	Debug      bool           // replay / trace mode: worlds may record wire bytes into Notes
 	NonTrivial bool           // set by the world when the run exercised the property meaningfully
 	ShapeExtra string         // appended to the shape key (e.g. fault kinds fired)
@@ -116,10 +120,24 @@ type Env struct {
 }
 
 func (e *Env) Fail(rule, feature, format string, args ...any) {
+	if e.Mode == "acct" && !strings.HasPrefix(rule, "acct-") {
+		if strings.HasPrefix(rule, "harness-") {
+			e.AcctInexact = true
+		}
+		return
+	}
 	e.Violations = append(e.Violations, Violation{Rule: rule, Feature: feature, Detail: fmt.Sprintf(format, args...)})
 }
 
 func (e *Env) Failed() bool { return len(e.Violations) > 0 }
+
+// CountResponse records a complete response parsed by a scripted client (ledger for C13).
+func (e *Env) CountResponse(method string, status int) {
+	if e.AcctResp == nil {
+		e.AcctResp = map[string]int{}
+	}
+	e.AcctResp[fmt.Sprintf("%s %d", method, status)]++
+}
 
 func (e *Env) Probe(name string) { e.Probes[name]++ }
 func (e *Env) ProbeN(name string, n int) {
@@ -223,6 +241,7 @@ func RunOne(t *testing.T, w *World, o RunOpts) *RunResult {
 				Probes: map[string]int{}, Faults: map[string]int{}}
 			env.Sched = sched.New(n, st, sched.DefaultKnobs())
 			env.Sched.KeepTrace = o.KeepTrace
+			env.Mode = w.Mode
 			env.Debug = o.KeepTrace
 			n.Record = o.KeepTrace
 			func() {
